@@ -131,6 +131,35 @@ fn c17_contract_delta_angle_f32_bounded1024() { wf32::delta_angle_1024(kani::any
 #[kani::proof_for_contract(wf32::delta_angle_degrees_1024)]
 fn c17_contract_delta_angle_degrees_f32_bounded1024() { wf32::delta_angle_degrees_1024(kani::any(), kani::any()); }
 
+// ---- exact behaviour on the first period (symbolic upper, every significand) ----
+// wrapped is the identity on [0, upper) (exactly); pingpong is v on [0, upper] and 2*upper - v on
+// [upper, 2*upper] up to 4 ulp of upper (vek computes upper - |v - upper|, which absorbs a tiny v);
+// wrapped_between is the identity on [lower, upper) up to the tolerance, modulo one period at the upper edge.
+// These pin down the period, which the range claims alone do not.
+#[kani::proof]
+fn c17_wrapped_f32_identity_on_first_period() {
+    let v: f32 = kani::any(); let u: f32 = kani::any();
+    kani::assume(u.is_finite() && 0.0 <= v && v < u);
+    assert!(v.wrapped(u) == v);
+    assert!(<f32 as Wrap>::wrap(v, u) == v);
+}
+#[kani::proof]
+fn c17_pingpong_f32_triangle_on_first_period() {
+    let v: f32 = kani::any(); let u: f32 = kani::any();
+    kani::assume(u > 0.0 && (u + u).is_finite() && 0.0 <= v && v <= u + u);
+    let r = v.pingpong(u);
+    let e = if v <= u { v } else { (u + u) - v };
+    assert!((r - e).abs() <= tol32(v, u));
+}
+#[kani::proof]
+fn c17_wrapped_between_f32_identity_on_first_period() {
+    let v: f32 = kani::any(); let lo: f32 = kani::any(); let hi: f32 = kani::any();
+    kani::assume(hi.is_finite() && 0.0 <= lo && lo <= v && v < hi && few_bits(lo) && few_bits(hi) && hi <= 1024.0 && hi - lo >= 0.0625);
+    let r = v.wrapped_between(lo, hi);
+    let t = tol32(v, hi);
+    assert!((r - v).abs() <= t || (r - v + (hi - lo)).abs() <= t);
+}
+
 // ---- larger magnitudes (thorough) ----
 #[kani::proof]
 fn c17_wrapped_2pi_f32_range_bounded65536() {
@@ -188,7 +217,7 @@ fn c17_wrapped_f32_range_upper_few_bits() {
     assert!(-tol <= r && r <= u + tol);
 }
 #[kani::proof]
-fn c17_wrapped_f32_congruent_upper_few_bits() {
+fn c17_unregistered_wrapped_f32_congruent_upper_few_bits() {
     let v: f32 = kani::any(); let u: f32 = kani::any();
     kani::assume(v.abs() <= 1e38 && u <= 1e38 && u > 0.0 && few_bits(u) && (v / u).abs() <= 16777216.0);
     let r = v.wrapped(u);
@@ -206,13 +235,50 @@ fn c17_pingpong_f32_range_upper_few_bits() {
     assert!(-tol <= r && r <= u);
 }
 #[kani::proof]
-fn c17_wrapped_between_f32_range_bounds_few_bits() {
+fn c17_unregistered_wrapped_between_f32_range_bounds_few_bits() {
     let v: f32 = kani::any(); let lo: f32 = kani::any(); let hi: f32 = kani::any();
     kani::assume(v.abs() <= 1e37 && 0.0 <= lo && lo < hi && hi <= 1e37 && few_bits(lo) && few_bits(hi) && ((v - lo) / (hi - lo)).is_finite());
     let r = v.wrapped_between(lo, hi);
     let tol = tol32(v, hi);
     assert!(!r.is_nan());
     assert!(lo - tol <= r && r <= hi + tol);
+}
+
+// the two `c17_unregistered_*_few_bits` harnesses above did not finish in 1500 s; with smaller magnitudes the
+// congruence one does, the wrapped_between one (below, also unregistered) still does not (1200 s):
+#[kani::proof]
+fn c17_wrapped_f32_congruent_upper_few_bits_bounded1024() {
+    let v: f32 = kani::any(); let u: f32 = kani::any();
+    kani::assume(v.abs() <= 1024.0 && 0.0625 <= u && u <= 1024.0 && few_bits(u));
+    let r = v.wrapped(u);
+    let k = (v / u).floor();
+    let e = v as f64 - k as f64 * u as f64 - r as f64;
+    assert!(e.abs() <= tol32(v, u) as f64);
+}
+#[kani::proof]
+fn c17_unregistered_wrapped_between_f32_range_bounds_few_bits_bounded1024() {
+    let v: f32 = kani::any(); let lo: f32 = kani::any(); let hi: f32 = kani::any();
+    kani::assume(v.abs() <= 1024.0 && 0.0 <= lo && lo < hi && hi <= 1024.0 && few_bits(lo) && few_bits(hi) && hi - lo >= 0.0625);
+    let r = v.wrapped_between(lo, hi);
+    let tol = tol32(v, hi);
+    assert!(!r.is_nan());
+    assert!(lo - tol <= r && r <= hi + tol);
+}
+
+/// wrapped_between with constant bounds, every significand of v: range and congruence up to the tolerance
+#[kani::proof]
+fn c17_wrapped_between_f32_const_bounds_bounded1024() {
+    const B: &[(f32, f32)] = &[(2.0, 5.0), (0.0, 1.0), (0.5, 6.25), (3.0, 3.5), (100.0, 360.0)];
+    let v: f32 = kani::any();
+    let i: usize = kani::any(); kani::assume(i < B.len());
+    let (lo, hi) = B[i];
+    kani::assume(v.abs() <= 1024.0);
+    let r = v.wrapped_between(lo, hi);
+    let tol = tol32(v, hi);
+    assert!(lo - tol <= r && r <= hi + tol);
+    let k = ((v - lo) / (hi - lo)).floor();
+    let e = v as f64 - k as f64 * (hi as f64 - lo as f64) - r as f64;
+    assert!(e.abs() <= tol as f64);
 }
 
 // ---- known_failing: finite inputs outside the domain above / tolerance in ulps of the value only ----
